@@ -104,3 +104,100 @@ def stage(name, prop, cases_fn, nontrivial=None, extra_aux=None, procs=None):
 
 def n_elems(rec):
     return len(grids.universe(rec["D"]))
+
+
+# ----------------------------------------------------------------------------- shapes aimed at corner cases
+TINY = [([0, 4, 2, 0, 4, 2], [2, 2, 0, 2, 2, 0], 16384), ([0, 4, 4, 0, 0, 0], [4, 4, 0, 0, 0, 0], 16384),
+        ([0, 4, 2, 0, 4, 0], [2, 2, 0, 2, 2, 0], 16384), ([0, 8, 3, 1, 2, 1], [5, 5, 0, 2, 2, 1], 16384)]
+
+
+def cyclic_dataset(rng, nmin=3, nmax=5, incomplete=False):
+    """Condorcet cycles: the rotations of one order, with some adjacent pairs tied, optional missing elements,
+    duplicates and an extra random ranking -- the datasets on which components are not trivially tied."""
+    n = rng.randint(nmin, nmax)
+    base = rng.sample(range(1, n + 1), n)
+    D = []
+    for k in range(n):
+        rot = base[k:] + base[:k]
+        r = []
+        for e in rot:
+            if r and rng.random() < .25:
+                r[-1].append(e)
+            else:
+                r.append([e])
+        if incomplete and rng.random() < .6:
+            drop = rng.choice(rot)
+            r = [[e for e in b if e != drop] for b in r]
+            r = [b for b in r if b]
+        D.append([sorted(b) for b in r])
+    if rng.random() < .3:
+        D.append(random_dataset(rng, n, 1, nmin=n)[0])
+    if rng.random() < .2:
+        D.append([])
+    if incomplete and all(len(grids.dom(r)) == n for r in D):
+        D[0] = [b for b in ([e for e in b if e != base[0]] for b in D[0]) if b]
+    U = grids.universe(D)
+    ren = {e: k + 1 for k, e in enumerate(U)}
+    return [[sorted(ren[e] for e in b) for b in r] for r in D]
+
+
+def two_cycles(rng):
+    """two cyclic blocks of sizes 4 and 3 (in a random order), every ranking placing the first block before the
+    second: two non-trivial components of different sizes"""
+    a, b = [1, 2, 3, 4], [5, 6, 7]
+    rng.shuffle(a)
+    rng.shuffle(b)
+    first_big = rng.random() < .5
+    D = []
+    for k in range(12):
+        ra = a[k % 4:] + a[:k % 4]
+        rb = b[k % 3:] + b[:k % 3]
+        seq = (ra + rb) if first_big else (rb + ra)
+        D.append([[e] for e in seq])
+    if rng.random() < .5:
+        D = D[:rng.choice([6, 8, 12])]
+    return D
+
+
+def reuse_mutate_cases(dss, configs, schemes, rng, flags=(1,), every=None, env="nocplex"):
+    """the SAME algorithm and dataset objects are used, the dataset is modified in place, then the measured run"""
+    out = []
+    for ci, cfg in enumerate(configs):
+        stride = (every or {}).get(cfg, 1)
+        e = "standin" if cfg in algorun.NEEDS_CPLEX else env
+        for k, D in enumerate(dss):
+            if k % stride:
+                continue
+            U = grids.universe(D)
+            ops = []
+            if [] in D and len(D) > 1:
+                ops.append({"op": "remove_empty"})
+            if len(U) >= 2:
+                ops.append({"op": "remove_elements", "S": [U[(k + ci) % len(U)]]})
+            ops.append({"op": "remove_rate", "p": 1, "q": 2})
+            op = ops[(k + ci) % len(ops)]
+            for f in flags:
+                if cfg == "ExactCplex(opt)" and f == 0:
+                    continue
+                out.append({"D": D, "naming": ["ints", "letters"][k % 2], "sch": list(schemes[(k + ci) % len(schemes)]),
+                            "cfg": cfg, "flag": f, "env": e, "kseed": k, "reuse": {"kind": "mutate", "ops": [op]}})
+    return out
+
+
+def reuse_other_cases(dss, configs, schemes, rng, flags=(1,), every=None, env="nocplex"):
+    """the SAME algorithm object first serves another (dataset, scheme) whose score is read, then the measured run"""
+    out = []
+    for ci, cfg in enumerate(configs):
+        stride = (every or {}).get(cfg, 1)
+        e = "standin" if cfg in algorun.NEEDS_CPLEX else env
+        for k, D in enumerate(dss):
+            if k % stride:
+                continue
+            D0 = dss[(k * 7 + 3) % len(dss)]
+            for f in flags:
+                if cfg == "ExactCplex(opt)" and f == 0:
+                    continue
+                out.append({"D": D, "naming": ["ints", "letters"][k % 2], "sch": list(schemes[(k + ci) % len(schemes)]),
+                            "cfg": cfg, "flag": f, "env": e, "kseed": k,
+                            "reuse": {"kind": "other", "D0": D0, "sch0": list(schemes[(k + ci + 1) % len(schemes)])}})
+    return out
